@@ -6,6 +6,7 @@ package ccm
 // to implement Adapter and call RegisterAdapter in an init() of this package (or of a package the drivers import).
 
 import (
+	"bytes"
 	"math/big"
 
 	"github.com/polynetwork/poly/common"
@@ -23,7 +24,15 @@ const (
 	VAltProof = "altproof" // same message, a different byte string that is an equally valid proof
 	VAltMsg   = "altmsg"   // same (chain, cross-chain id) carried by a different valid message / proof
 	VBad      = "bad"      // invalid authentication (outsider vote / proof of another message)
+	VEnvelope = "envelope" // same identified message, other bytes in the fields that are not part of its identity
+	//                        (vote/ripple: Proof and HeaderOrCrossChainMsg; hsc: HeaderOrCrossChainMsg and unused proof fields)
 )
+
+// IDer is implemented by adapters whose cross-chain id is fixed by the proof material (BTC: the txid) instead of
+// being a free field of the submitted message.
+type IDer interface {
+	CrossChainID(src uint64, i int) []byte
+}
 
 // Sub is one complete submission: the transactions in order (votes up to the quorum for vote-style routers, the
 // single import tx for proof routers). Votes already present from earlier, abandoned submissions may complete
@@ -55,9 +64,22 @@ type Adapter interface {
 	Verified(src uint64, extra []byte) *scom.MakeTxParam
 }
 
-var adapters []func() Adapter
+var adapters, fixedAdapters []func() Adapter
 
 func RegisterAdapter(f func() Adapter) { adapters = append(adapters, f) }
+
+// RegisterFixedAdapter registers an adapter whose messages are fixed by its proof material (BTC deposits): usable
+// by drivers that only need "message i of chain c" (C20), not by drivers that choose message contents (C22).
+func RegisterFixedAdapter(f func() Adapter) { fixedAdapters = append(fixedAdapters, f) }
+
+// FixedAdapters returns fresh instances of the fixed-message adapters.
+func FixedAdapters() []Adapter {
+	var out []Adapter
+	for _, f := range fixedAdapters {
+		out = append(out, f())
+	}
+	return out
+}
 
 // Adapters returns fresh instances of every registered adapter.
 func Adapters() []Adapter {
@@ -69,7 +91,7 @@ func Adapters() []Adapter {
 }
 
 // RoutersWithoutAdapter names the routers of cross_chain_manager.GetChainHandler no adapter exists for.
-func RoutersWithoutAdapter() []string {
+func RoutersWithoutAdapter(includeFixed ...bool) []string {
 	all := map[uint64]string{utils.VOTE_ROUTER: "vote", utils.BTC_ROUTER: "btc", utils.ETH_ROUTER: "eth", utils.ONT_ROUTER: "ont",
 		utils.NEO_ROUTER: "neo", utils.NEO3_ROUTER: "neo3", utils.COSMOS_ROUTER: "cosmos", utils.QUORUM_ROUTER: "quorum",
 		utils.BSC_ROUTER: "bsc", utils.HECO_ROUTER: "heco", utils.ZILLIQA_LEGACY_ROUTER: "zilliqalegacy", utils.ZILLIQA_ROUTER: "zilliqa",
@@ -78,6 +100,11 @@ func RoutersWithoutAdapter() []string {
 		utils.BYTOM_ROUTER: "bytom", utils.RIPPLE_ROUTER: "ripple"}
 	for _, a := range Adapters() {
 		delete(all, a.Router())
+	}
+	if len(includeFixed) > 0 && includeFixed[0] {
+		for _, a := range FixedAdapters() {
+			delete(all, a.Router())
+		}
 	}
 	var out []string
 	for _, n := range all {
@@ -132,7 +159,7 @@ func (a *voteAdapter) Router() uint64 {
 	}
 	return utils.VOTE_ROUTER
 }
-func (a *voteAdapter) Variants() []string { return []string{VSame, VHeight, VAltMsg, VBad} }
+func (a *voteAdapter) Variants() []string { return []string{VSame, VEnvelope, VHeight, VAltMsg, VBad} }
 
 var (
 	RippleOperator  = polyenv.Key(901)
@@ -192,6 +219,12 @@ func (a *voteAdapter) Submit(src uint64, i int, variant string, relayer int, sal
 		voters[q-1] = polyenv.Key(777) // the deciding vote comes from a non-validator
 	}
 	for k, v := range voters {
+		if variant == VEnvelope {
+			s.Txs = append(s.Txs, ImportTx(&scom.EntranceParam{SourceChainID: src, Height: h, Extra: extra, RelayerAddress: v.Addr[:],
+				Proof: []byte("not part of the vote id"), HeaderOrCrossChainMsg: []byte{0xde, 0xad, byte(k)}}, salt, polyenv.Single(v)))
+			s.TxValid = append(s.TxValid, true)
+			continue
+		}
 		s.Txs = append(s.Txs, VoteImport(src, h, extra, v, salt))
 		s.TxValid = append(s.TxValid, !(variant == VBad && k == q-1))
 	}
@@ -246,7 +279,7 @@ const HscGenesisNumber = 5000
 
 func (a *hscAdapter) Name() string       { return "hsc" }
 func (a *hscAdapter) Router() uint64     { return utils.HSC_ROUTER }
-func (a *hscAdapter) Variants() []string { return []string{VSame, VAltProof, VAltMsg, VBad} }
+func (a *hscAdapter) Variants() []string { return []string{VSame, VEnvelope, VAltProof, VAltMsg, VBad} }
 
 func HscCCMC(chain uint64) []byte {
 	b := make([]byte, 20)
@@ -288,6 +321,12 @@ func (a *hscAdapter) Submit(src uint64, i int, variant string, relayer int, salt
 		proof = a.st[src].Proof(a.slot[src][string(a.alt[src][i])], false)
 	}
 	rel := polyenv.Key(700 + relayer)
+	if variant == VEnvelope {
+		proof = bytes.Replace(proof, []byte(`"value":"0x00"`), []byte(`"value":"0xdeadbeef"`), 1) // field the verifier never reads
+		tx := ImportTx(&scom.EntranceParam{SourceChainID: src, Height: HscGenesisNumber, Proof: proof, Extra: extra, RelayerAddress: rel.Addr[:],
+			HeaderOrCrossChainMsg: []byte{0xde, 0xad}}, salt, polyenv.Single(rel))
+		return Sub{Txs: []*types.Transaction{tx}, TxValid: []bool{true}, Valid: true}
+	}
 	return Sub{Txs: []*types.Transaction{HscImport(src, HscGenesisNumber, proof, extra, rel, salt)}, TxValid: []bool{variant != VBad}, Valid: variant != VBad}
 }
 
